@@ -25,6 +25,11 @@ func patch(
 	before, oldValues, newValues, after []JsonNode,
 	strategy patchStrategy,
 ) (JsonNode, error) {
+	if strategy != mergePatchStrategy && len(pathAhead) > 0 {
+		// Any remaining path element, including a set or multiset
+		// element, needs a collection to index into.
+		return patchErrExpectColl(node, pathAhead[0])
+	}
 	if !pathAhead.isLeaf() {
 		if strategy != mergePatchStrategy {
 			return patchErrExpectColl(node, pathAhead[0])
